@@ -31,6 +31,91 @@ MUTATORS = {'append', 'extend', 'pop', 'insert', 'remove', 'clear', 'sort', 'rev
             'frombytes', 'add', 'discard', 'invert', 'setall', 'bytereverse'}
 
 
+def memo_transparent(prog, m, mname, name):
+    """Is the module-level dictionary `name` a memo that no caller can observe?  True when (1) it is only ever used as a table - looked up, stored
+    into, evicted from - and (2) at every store the key is made of ALL the inputs of the computation: the function that looks the key up and later
+    stores (directly, or through a helper that only forwards key and value) is given the key as one or several of its own parameters, unmodified,
+    and reads no other parameter (`self` is read only through attributes the function itself assigns).  Otherwise a string saying why not."""
+    funcs = [f for f in prog.all_functions() if f.module == mname]
+    table_ops = {'get', 'pop', 'popitem', 'clear', 'setdefault', 'keys', 'items', 'values', 'move_to_end'}
+    stores = []          # (function, key expr, value expr)
+    for f in funcs:
+        parents = {}
+        for n in ast.walk(f.node):
+            for c in ast.iter_child_nodes(n):
+                parents[c] = n
+        for n in ast.walk(f.node):
+            if isinstance(n, ast.Name) and n.id == name and isinstance(n.ctx, ast.Load):
+                p = parents.get(n)
+                if isinstance(p, ast.Subscript) and p.value is n:
+                    if isinstance(p.ctx, ast.Store):
+                        a = parents.get(p)
+                        if isinstance(a, ast.Assign) and len(a.targets) == 1:
+                            stores.append((f, p.slice, a.value))
+                            continue
+                        return 'stored into by something other than a plain assignment'
+                    continue
+                if isinstance(p, ast.Attribute) and p.attr in table_ops:
+                    continue
+                if isinstance(p, ast.Compare) and any(c_ is n for c_ in p.comparators):
+                    continue
+                if isinstance(p, ast.Call) and isinstance(p.func, ast.Name) and p.func.id in ('len', 'iter', 'next', 'list', 'sorted'):
+                    continue
+                return f'used as more than a table in {f.qual}: `{ast.unparse(p)[:40]}`'
+    if not stores:
+        return 'never stored into by subscript assignment'
+
+    def params(f):
+        a = f.node.args
+        ps = [x.arg for x in a.posonlyargs + a.args + a.kwonlyargs]
+        return ps[1:] if f.cls is not None and ps and ps[0] in ('self', 'cls') else ps
+
+    def key_params(key):
+        elts = key.elts if isinstance(key, ast.Tuple) else [key]
+        out = []
+        for e in elts:
+            if isinstance(e, ast.Name):
+                out.append(e.id)
+            elif isinstance(e, ast.Constant):
+                continue
+            else:
+                return None
+        return out
+
+    def reads_only(f, allowed):
+        ps = set(params(f))
+        used = {n.id for n in ast.walk(f.node) if isinstance(n, ast.Name) and isinstance(n.ctx, ast.Load) and n.id in ps}
+        return used <= set(allowed), sorted(used - set(allowed))
+    for f, key, value in stores:
+        kp = key_params(key)
+        if kp is None or not set(kp) <= set(params(f)) or not kp:
+            return f'the key `{ast.unparse(key)[:40]}` stored in {f.qual} is computed, not the unmodified inputs'
+        ok, extra = reads_only(f, kp)
+        if ok:
+            continue
+        # a helper that only forwards (key, value): every other parameter it reads must flow into the stored value alone
+        vnames = {n.id for n in ast.walk(value) if isinstance(n, ast.Name)}
+        if not set(extra) <= vnames or any(isinstance(n, ast.Name) and n.id in extra and isinstance(n.ctx, ast.Load) and not any(n is y for y in ast.walk(value))
+                                           for n in ast.walk(f.node)):
+            return f'{f.qual} reads the parameter(s) {extra} that are not part of the key'
+        # ... then the callers decide: the key they pass must be their own unmodified parameters, and they read no other parameter
+        pos = {p_: i for i, p_ in enumerate(params(f))}
+        callers = [(g, c) for g in funcs for c in ast.walk(g.node) if isinstance(c, ast.Call) and isinstance(c.func, ast.Name) and c.func.id == f.name]
+        if not callers:
+            return f'{f.qual} stores a value given by unknown callers'
+        for g, c in callers:
+            passed = []
+            for p_ in kp:
+                arg = c.args[pos[p_]] if pos[p_] < len(c.args) else next((k.value for k in c.keywords if k.arg == p_), None)
+                if not isinstance(arg, ast.Name) or arg.id not in params(g):
+                    return f'{g.qual} passes a computed key to {f.name}'
+                passed.append(arg.id)
+            ok, extra2 = reads_only(g, passed)
+            if not ok:
+                return f'{g.qual} reads the parameter(s) {extra2} that are not part of the key'
+    return True
+
+
 def snap(it, c):
     bits = c.attrs['bits']
     nat = bits.native if isinstance(bits, Inst) else bits
@@ -328,12 +413,49 @@ def check(run):
                 run.ok('D3', f'{f.qual}({pname}) default unused-for-state')
     # module-level / class-level containers mutated from functions
     for mname, m in prog.modules.items():
-        mutables = {n for n, e in m.consts.items() if isinstance(e, (ast.Dict, ast.List, ast.Set)) or
-                    (isinstance(e, ast.Call) and isinstance(e.func, ast.Name) and e.func.id in ('dict', 'list', 'set'))}
+        def is_mutable_expr(e):
+            if isinstance(e, (ast.Dict, ast.List, ast.Set, ast.ListComp, ast.DictComp, ast.SetComp)):
+                return True
+            if isinstance(e, ast.Call):
+                fn_ = e.func
+                nm_ = fn_.id if isinstance(fn_, ast.Name) else fn_.attr if isinstance(fn_, ast.Attribute) else None
+                if nm_ in ('dict', 'list', 'set', 'bytearray', 'bitarray', 'defaultdict', 'OrderedDict', 'deque', 'Counter', 'TvmBitarray'):
+                    return True
+                # an instance of a class of the package that is (or wraps) a mutable container: VmTuple([]), HashMap(8), Builder() ...
+                c_ = prog.classes.get(nm_)
+                if c_ is not None and (nm_ in ('Builder', 'HashMap', 'Slice') or any(set(prog.ext_bases(k_)) & {'list', 'dict', 'set', 'bitarray', 'bytearray'} for k_ in prog.mro(c_))):
+                    return True
+            return False
+        mutables = {n for n, e in m.consts.items() if is_mutable_expr(e)}
+        # module-level INSTANCES of package classes (other than Cell, which is immutable): an object every caller would share if a function
+        # handed it out - `return _NIL_TUPLE` - whatever its class looks like inside
+        shared_objs = set()
+        for n_, e_ in m.consts.items():
+            if isinstance(e_, ast.Call):
+                fn_ = e_.func
+                cn_ = fn_.id if isinstance(fn_, ast.Name) else fn_.value.id if isinstance(fn_, ast.Attribute) and isinstance(fn_.value, ast.Name) else None
+                k_ = prog.classes.get(cn_)
+                if k_ is not None and cn_ not in ('Cell', 'LevelMask') and not set(prog.ext_bases(k_)) & {'Enum', 'IntEnum', 'Exception'}:
+                    shared_objs.add(n_)
+        for f in prog.all_functions():
+            if f.module != mname:
+                continue
+            local_ = {x.arg for x in f.node.args.args} | {n.id for n in ast.walk(f.node) if isinstance(n, ast.Name) and isinstance(n.ctx, ast.Store)}
+            for n in ast.walk(f.node):
+                if isinstance(n, ast.Return) and isinstance(n.value, ast.Name) and n.value.id in (shared_objs | mutables) and n.value.id not in local_:
+                    run.fail('D3', f'{f.qual}:returns {n.value.id}', f'hands out the module-level object `{n.value.id}` itself: every caller gets the same mutable object, '
+                             f'what one of them does to it is seen by all later callers', prog.where(n, f.module))
+        memo_ok = {nm_: memo_transparent(prog, m, mname, nm_) for nm_ in mutables}
         for f in prog.all_functions():
             if f.module != mname:
                 continue
             local = {x.arg for x in f.node.args.args} | {n.id for n in ast.walk(f.node) if isinstance(n, ast.Name) and isinstance(n.ctx, ast.Store)}
+            # local aliases of a module-level container: `nil = _NIL` ... `nil.append(x)`
+            alias = {}
+            for n in ast.walk(f.node):
+                if isinstance(n, ast.Assign) and len(n.targets) == 1 and isinstance(n.targets[0], ast.Name) and isinstance(n.value, ast.Name) \
+                        and n.value.id in mutables and n.value.id not in local:
+                    alias[n.targets[0].id] = n.value.id
             for n in ast.walk(f.node):
                 nm = None
                 if isinstance(n, ast.Call) and isinstance(n.func, ast.Attribute) and n.func.attr in MUTATORS and isinstance(n.func.value, ast.Name):
@@ -343,8 +465,13 @@ def check(run):
                 elif isinstance(n, ast.Global):
                     for g in n.names:
                         run.fail('D3', f'{f.qual}:global {g}', 'function rebinds a module-level name', prog.where(n, f.module))
-                if nm and nm in mutables and nm not in local:
-                    run.fail('D3', f'{f.qual}:{nm}', f'mutates the module-level container `{nm}`: `{ast.unparse(n)[:50]}`', prog.where(n, f.module))
+                nm = alias.get(nm, nm) if nm in alias else nm
+                if nm and nm in mutables and (nm not in local or nm in alias.values()):
+                    if memo_ok.get(nm) is True:
+                        run.ok('D3', f'{f.qual}:{nm} (memo keyed by every input)')
+                        continue
+                    run.fail('D3', f'{f.qual}:{nm}', f'mutates the module-level container `{nm}`: `{ast.unparse(n)[:50]}`' +
+                             (f' ({memo_ok[nm]})' if isinstance(memo_ok.get(nm), str) else ''), prog.where(n, f.module))
     for c in prog.classes.values():
         cmut = {n for n, e in c.class_attrs.items() if isinstance(e, (ast.Dict, ast.List, ast.Set))}
         if not cmut:
